@@ -170,6 +170,11 @@ class _ParseTreeProcessor(parsimonious.NodeVisitor):
     def visit_end_of_line(self, _n: _Node, _c: _Children) -> None:
         self._current_line_number += 1
 
+    def visit_definition(self, _n: _Node, _c: _Children) -> None:
+        # The last line is not necessarily terminated with an end-of-line (nor followed by an empty line),
+        # so whatever is still pending at the end of the input (the last attribute with its comment) is committed here.
+        self._flush_comment()
+
     # ================================================== Statements ==================================================
 
     visit_statement = _make_typesafe_child_lifter(type(None))  # Make sure all sub-nodes have been handled,
